@@ -305,7 +305,20 @@ func buildOverlay(hs []HarnessCfg, native bool) (map[string][]byte, []string) {
 	overlay := map[string][]byte{}
 	add := func(dir, target string) {
 		fs, _ := filepath.Glob(filepath.Join(dir, "*.go"))
+		// native replay: a harness directory whose other files need engine-only models (disk model, ...) marks the
+		// files that build against the native runtime with a first line "//verif:native"; then only those are taken
+		marked := map[string]bool{}
+		if native {
+			for _, f := range fs {
+				if b, _ := os.ReadFile(f); strings.HasPrefix(string(b), "//verif:native\n") {
+					marked[f] = true
+				}
+			}
+		}
 		for _, f := range fs {
+			if len(marked) > 0 && !marked[f] {
+				continue
+			}
 			b, _ := os.ReadFile(f)
 			overlay[filepath.Join(target, "zz_verif_"+filepath.Base(f))] = b
 		}
